@@ -286,6 +286,9 @@ class GetExpandedSchema(Contract):
             yield "miss-loads-a-fresh-expansion", out.value.name not in ("cached", "other")
 
     def at_call(self, E, v, schema_name, version=None):
+        if not S.is_sym(schema_name) and not S.is_sym(version) and isinstance(v.expanded_schemas, dict):
+            # concrete request on a real Validator (the printer's schema lookup): the real code runs natively
+            return v.get_expanded_schema(schema_name, version)
         g = SchemaGhost(("expanded", schema_name, version))
         g.props = Seg("properties-of", g)
         return g
